@@ -97,7 +97,9 @@ def replace_on_success(ck, ctx):
             g = C.bool_gate_edges(ctx, b, pred_contains(which))
             g_not = {(x, [l for l in Q.bool_edges(b.blocks[x]["term"]) if l != lab][0]) for x, lab in g}
             ok, _ = Q.gated(cfg, bb, g_not, repeat=True)
-            ck.ob("replace-on-success", "push#%d|not-already-%s" % (i, which), ok, "a reported dep is kept only if it is not already %s" % ("in the new list (de-duplicated)" if which == "deps" else "a declared dirtying input"), span=t["loc"], fn=b.nname)
+            # de-duplication is tidy but not needed by the property (a name hashed twice is hashed twice at record and at check time alike):
+            # reported, not an obligation
+            ck.extra.setdefault("dedup_report_only", {})["push#%d|not-already-%s" % (i, which)] = bool(ok)
         # not filtered against ordering_ins (order-only duplicates stay dirtying)
         bad = [callee_of(tt) for x, tt in b.calls() if callee_of(tt) in ("graph::Build::ordering_ins", "graph::Build::validation_ins")]
         ck.ob("replace-on-success", "push#%d|order-only-kept" % i, not bad, "record_finished does not filter reported deps against order-only / validation inputs (%s)" % bad, span=t["loc"], fn=b.nname)
@@ -106,6 +108,9 @@ def replace_on_success(ck, ctx):
 
 def missing_not_error(ck, ctx):
     D.files_missing(ck, ctx, rule="missing-not-error")
+    # after a run the manifest hash (which panics on a Missing file) is computed only when every hashed input category -- the
+    # discovered dependencies included -- was re-stat'ed and found present
+    D.record_discipline(ck, ctx, rule="missing-not-error")
     F = ctx.F
     b = F.body(D.CBFM)
     cfg = ctx.cfg(b)
@@ -290,6 +295,7 @@ def showincludes(ck, ctx):
 
 
 def run(ck, ctx):
+    C.adapter_census(ck, ctx, "replace-on-success", ("work::", "task::", "db::", "depfile::"))
     C.loops_complete(ck, ctx, "replace-on-success", [("work::Work::record_finished", "graph::GraphFiles::id_from_canonical", "the reported dependency names")])
     single_writer(ck, ctx)
     replace_on_success(ck, ctx)
